@@ -93,3 +93,71 @@ func snapshotOrderOracle(c *simCluster) {
 	r.onSnapshotTaken(t)
 	n.barrier()
 }
+
+// restoreOrderOracle: the state machine goroutine restores from the snapshot it opened; its applied position afterwards is
+// that snapshot's index and term - also when a newer snapshot is published while the restore runs - and stays what it was
+// when the restore fails (the state machine keeps its state then).  A real single-voter leader with two snapshots.
+func restoreOrderOracle(c *simCluster) {
+	n := c.nodes[1]
+	if n == nil || !c.elect(1) {
+		return
+	}
+	r := n.r
+	for k := 0; k < 3; k++ {
+		c.doClient(n, []entryType{entryUpdate, entryUpdate})
+	}
+	for k := 0; k < 3; k++ {
+		c.snapshotStep(n) // request, goroutine, taken: snapshot S1
+	}
+	s1, _ := r.snaps.latest()
+	if s1 == 0 {
+		c.w.dist["oracle/restore-order-skipped"]++
+		return
+	}
+	for k := 0; k < 2; k++ {
+		c.doClient(n, []entryType{entryUpdate})
+	}
+	applied := r.lastApplied()
+	if applied <= s1 {
+		c.w.dist["oracle/restore-order-skipped"]++
+		return
+	}
+	// (a) a restore that fails
+	n.fsm.mu.Lock()
+	n.fsm.restoreErr = fmt.Errorf("sim: restore fails")
+	n.fsm.mu.Unlock()
+	r.fsm.ch <- fsmRestoreReq{r.fsmRestoredCh}
+	err := <-r.fsmRestoredCh
+	n.fsm.mu.Lock()
+	n.fsm.restoreErr = nil
+	n.fsm.mu.Unlock()
+	if got := r.lastApplied(); err != nil && got != applied {
+		for _, prop := range []string{"C12", "C03"} {
+			c.finding(prop, "restore-position", fmt.Sprintf("a restore from snapshot %d failed (the state machine keeps its state, applied up to %d), yet the state machine goroutine now reports position %d: snapshots taken from it would be labelled with an index their state does not have", s1, applied, got))
+		}
+	}
+	// (b) a newer snapshot is published while a restore from S1 runs
+	gate := make(chan struct{})
+	n.fsm.mu.Lock()
+	n.fsm.restoreGate = gate
+	n.fsm.mu.Unlock()
+	r.fsm.ch <- fsmRestoreReq{r.fsmRestoredCh}
+	time.Sleep(20 * time.Millisecond) // the goroutine has opened S1 and waits inside Restore
+	s2 := applied
+	if sink, err := r.snaps.new(s2, r.term, r.configs.Committed); err == nil {
+		_ = simFSMState{n.fsm.snapshotCmds()}.Persist(sink.file)
+		_, _ = sink.done(nil)
+	}
+	n.fsm.mu.Lock()
+	n.fsm.restoreGate = nil
+	n.fsm.mu.Unlock()
+	close(gate)
+	err = <-r.fsmRestoredCh
+	latest, _ := r.snaps.latest()
+	if got := r.lastApplied(); err == nil && latest == s2 && got != s1 {
+		for _, prop := range []string{"C12", "C03"} {
+			c.finding(prop, "restore-position", fmt.Sprintf("the state machine was restored from snapshot %d while snapshot %d was being published; it holds the state of %d but reports position %d", s1, s2, s1, got))
+		}
+	}
+	c.w.dist["oracle/restore-order"]++
+}
